@@ -45,7 +45,7 @@ func (r *Run) stamp(e *host.Event) {
 	raceDisable()
 	if t := r.lookup(getg()); t != nil {
 		e.Task = t.idx
-		if r.Cancelled.Load() {
+		if r.Returned.Load() {
 			e.Post = true
 			t.HostPostFault++
 		}
